@@ -84,6 +84,9 @@ class Operation(ElementBase):
     def unchop(self, axis: AxisType) -> None:
         """Removed existing chops from an operation
         (comes handy after copying etc.)"""
+        if axis not in self.chops:
+            raise KeyError(f"Axis must be 0, 1 or 2, got {axis}")
+
         self.chops[axis] = []
 
     def project_corner(self, corner: int, label: ProjectToType) -> None:
